@@ -49,6 +49,7 @@ func NewReflector[S, A any](t hseq.Type[S]) Reflector[A] {
 
 	if ft.String() == fv.String() && ft.AssignableTo(fv) {
 		assertContainer[S]()
+		assertInline(t)
 		return &lens[S, A]{t}
 	}
 
